@@ -97,6 +97,8 @@ func CheckRegistryTrace(calls []RegCall) []Violation {
 					} else if c.Ref != s.early {
 						add("two-early-references", c.Name, fmt.Sprintf("while %q is in creation a lookup returned ref %d, an earlier one ref %d", c.Name, c.Ref, s.early), idx)
 					}
+				} else if c.Ref == 0 && !c.Err && s.early != 0 {
+					add("early-reference-disappeared", c.Name, fmt.Sprintf("while %q is in creation its early reference (ref %d) had already been handed out, yet a later lookup (allowEarly=%v) observed nothing", c.Name, s.early, c.Op == "getE"), idx)
 				}
 			case s.failed:
 				if c.Ref != 0 && !c.Err {
@@ -108,14 +110,18 @@ func CheckRegistryTrace(calls []RegCall) []Violation {
 				}
 			}
 		case "ef":
-			s.ef++
-			if s.ef > 1 {
-				add("early-factory-invoked-twice", c.Name, fmt.Sprintf("the early-reference factory of %q was invoked %d times during one creation", c.Name, s.ef), idx)
-			}
 			if s.creating == 0 {
 				add("early-factory-after-creation", c.Name, fmt.Sprintf("the early-reference factory of %q was invoked although %q is not in creation", c.Name, c.Name), idx)
 			}
 		case "efx":
+			// an invocation that returned an error produced no early reference; the demand is
+			// that at most one early reference is ever produced per creation
+			if !c.Err {
+				s.ef++
+				if s.ef > 1 {
+					add("early-factory-invoked-twice", c.Name, fmt.Sprintf("the early-reference factory of %q produced a reference %d times during one creation", c.Name, s.ef), idx)
+				}
+			}
 			if s.creating > 0 && c.Ref != 0 && !c.Err && s.early == 0 {
 				s.early = c.Ref
 			}
